@@ -31,6 +31,12 @@ Theorem C18_declared_height_off_position_rejected : forall sha scrypt blake veri
   v_block_in_state sha scrypt blake verify P b s = Err EValidation.
 Proof. exact declared_height_off_position_rejected. Qed.
 
+(* a block without a stored parent is accepted only as a genesis block (height 0), on either side of the horizon *)
+Theorem C18_parentless_nonzero_height_rejected : forall sha scrypt blake verify P b s,
+  cs_blocks s !! b_prev b = None -> b_height b <> 0%N ->
+  v_block_in_state sha scrypt blake verify P b s = Err EValidation.
+Proof. exact parentless_nonzero_height_rejected. Qed.
+
 Theorem C18_declared_height_shortcut_refuted : forall sha scrypt blake verify P b s,
   p_known P = Gen_Checkpoints.KNOWN_HASHES -> p_hz P = Gen_Checkpoints.MAX_KNOWN_HASH_HEIGHT ->
   b_height b = 1%N ->
@@ -60,6 +66,7 @@ Print Assumptions C18_checkpoint.
 Print Assumptions C18_accepted_height_is_position.
 Print Assumptions C18_declared_height_off_position_rejected.
 Print Assumptions C18_declared_height_shortcut_refuted.
+Print Assumptions C18_parentless_nonzero_height_rejected.
 Print Assumptions C18_checkpoint_generic.
 Print Assumptions C18_table_wf.
 Print Assumptions C18_genesis_codec.
